@@ -85,8 +85,12 @@ func Main(prop string) {
 	nRandom := len(faces) * per
 	nSweep := SweepSize(faces)
 	nTrain := TrainSize(faces)
-	total := nRandom + nSweep + nTrain + RepeatSize(faces)
+	nRepeat := RepeatSize(faces)
+	total := nRandom + nSweep + nTrain + nRepeat + SpaceSize(faces)
 	genCase := func(i int) *Case {
+		if i >= nRandom+nSweep+nTrain+nRepeat {
+			return SpaceCase(i-nRandom-nSweep-nTrain-nRepeat, faces)
+		}
 		if i >= nRandom+nSweep+nTrain {
 			return RepeatCase(i-nRandom-nSweep-nTrain, faces)
 		}
@@ -119,7 +123,8 @@ func Main(prop string) {
 	run.Extra("pair_sweep_cases", SweepSize(faces))
 	run.Extra("mark_train_cases", TrainSize(faces))
 	run.Extra("repeat_train_cases", RepeatSize(faces))
-	rule := "repeat trains: 1..3 mapped letters of every face repeated 130 times; mark trains: a letter + 31..129 copies of each mark of the 21 script alphabets x 2 directions x 2 APIs x 2 faces; systematic sweep: every (letter, mark) pair of 21 script alphabets x 2 orders x 4 directions x {shaping.Shape, 3 buffer cluster levels} x {covering face, fixed face}; then case i: face = corpus face (i mod #faces), text from {cmap-local, per-script alphabets incl. ill-formed sequences, special classes, real text, upstream trigger strings and mutations}, run bounds inside/at edges/outside/swapped, LTR/RTL/TTB/BTT(+sideways), script (guessed/0/random), language, size 1..4096px incl. fractional, feature lists (global, ranged at buffer level), variation coordinates, shaping.Shape or harfbuzz.Buffer.Shape with random flags and cluster level. "
+	run.Extra("space_fallback_cases", SpaceSize(faces))
+	rule := "space fallback: digits and punctuation interleaved with U+2000..200A, 202F, 205F, 3000, 00A0 on every face x 4 directions x 2 APIs; repeat trains: 1..3 mapped letters of every face repeated 130 times; mark trains: a letter + 31..129 copies of each mark of the 21 script alphabets x 2 directions x 2 APIs x 2 faces; systematic sweep: every (letter, mark) pair of 21 script alphabets x 2 orders x 4 directions x {shaping.Shape, 3 buffer cluster levels} x {covering face, fixed face}; then case i: face = corpus face (i mod #faces), text from {cmap-local, per-script alphabets incl. ill-formed sequences, special classes, real text, upstream trigger strings and mutations}, run bounds inside/at edges/outside/swapped, LTR/RTL/TTB/BTT(+sideways), script (guessed/0/random), language, size 1..4096px incl. fractional, feature lists (global, ranged at buffer level), variation coordinates, shaping.Shape or harfbuzz.Buffer.Shape with random flags and cluster level. "
 	if prop == "C01" {
 		rule += "non-trivial = >=1 glyph and (glyph count != rune count, or a multi-glyph/multi-rune cluster, or non-LTR direction, or sub-run with context, or features); distinct by hash(font,text,bounds,direction,script,features)"
 	} else {
